@@ -8,6 +8,7 @@ CONSTANTS
   Ticks = TRUE
   Beh = FALSE
   Mut = "none"
+  AddEv = TRUE
 CHECK_DEADLOCK FALSE
 VIEW View
 INVARIANTS TypeOK Inv_Running C18_TimersOfLiveHandlers
